@@ -440,7 +440,8 @@ impl FaceModify {
             face.bg = Some(bg);
         }
         if let Some(underline) = self.underline {
-            face.attrs |= underline.into();
+            let (_, flags) = face.attrs.unpack();
+            face.attrs = FaceAttrs::pack(underline, flags);
         }
         // TODO: underline_color
         for (update, flag) in [
